@@ -109,6 +109,16 @@ def run(rng, tier, res=None, metrics=None):
             continue
         k = fnames.index(pyname)
         dom, sym, nn, zs, tri = A.TABLE.get(name, ("pos", 0, 0, 0, 0))
+        # finiteness on zero-containing non-negative vectors (what avoid_zero_division exists for): systematic
+        for zx, zy in (([0.0], [0.0]), ([0.0, 0.0, 0.0], [0.0, 0.0, 0.0]), ([0.0, 1.5], [2.0, 0.5]), ([0.0, 1.0, 2.0], [0.0, 3.0, 0.5]),
+                       ([1.0, 0.0], [1.0, 0.0])):
+            try:
+                vz = float(fn(np.array(zx), np.array(zy)))
+                if not np.isfinite(vz):
+                    viol("C08", f"{name} returned {vz!r} on zero-containing non-negative vectors", {"metric": name, "x": zx, "y": zy})
+            except Exception as ex:
+                viol("C08", f"{name} raised {type(ex).__name__} on zero-containing non-negative vectors", {"metric": name, "x": zx, "y": zy})
+            res.hit("poszero_fixed_vectors")
         for c in range(per):
             d = rng.choice([1, 2, 3, 4, 5, 7, 8, 9, 12])
             special = rng.choice([None, None, None, "zeros", "lattice", "equal", "parallel", "near", "poszero"])
